@@ -298,3 +298,23 @@ PROPS["C10"] = dict(
                "(C10_counterexample_recreate_after_delete) is not constructible without foreign block assembly and was not exercised.",
     assumptions=["outpoints are unique (tx / ETX hashes do not repeat)", "a block's trimming pass only touches outputs created by an older block"],
 )
+
+PROPS["C11"] = dict(
+    lean_modules=["QuaiVerif.Props.C11"],
+    areas=[dict(name="c11", n_quick=2, n_thorough=20, seeds_thorough=3, n_search=6, timeout=3000)],
+    facts=["append_batch_writes_head", "rollback_writes"],
+    rule="a case is one 10-17 block history of the real zone node over a recording key-value store, then 2-4 further block appends and one switch to a "
+         "1-3 block branch built by a second node; while each of these runs every write reaching the store is recorded in order (a direct put / delete is "
+         "one step, a committed batch one atomic step: trie-node and code commits, canonical hash, the block batch, head pointer, header / body / termini "
+         "writes). For every prefix of the recorded steps (all prefixes for the first append and the first case's reorg, a 25% sample plus the full "
+         "schedule otherwise) a fresh node is opened on 'image before + prefix' and must open, report a head whose state opens and whose 'ut'/'cl' scan is "
+         "exactly what its header commits to, and complete the interrupted append / switch ending in the ledger and head of the node that did not crash",
+    level_text="'Every prefix of a schedule in which each ledger batch carries the head pointer leaves a consistent database', for chains of appends and for "
+               "any reorganisation, and 'the interrupted append can be completed from every crash point' are Lean theorems over the write-schedule model "
+               "(induction over the schedule); that the current source puts the head pointer into BodyDb.Append's batch and into the rollback batch is "
+               "regenerated from source; the harness classifies the recorded real steps in the model's terms and restarts a real node on every prefix.",
+    level_note="Assumed, not verified: a committed batch is atomic and writes reach the store in program order (true of leveldb / pebble WAL semantics; OS / "
+               "disk reordering and torn batches are outside the model and the harness). The classification of recorded steps (stepClass) is trusted. The trie "
+               "database's own dirty-node cache is exercised but not modelled. Fixed defect: the head pointer used to be written after the block batch.",
+    assumptions=["batch commits are atomic and ordered with direct writes", "state tries are content addressed: an extra trie node never hurts"],
+)
